@@ -6,6 +6,7 @@
 package qcheck
 
 import (
+	"github.com/nuetzliches/hookaido/internal/queue"
 	"fmt"
 	"path/filepath"
 	"sort"
@@ -176,6 +177,10 @@ type Spec struct {
 	Workers  int
 	// RootShard/RootShards split the search below the initial state over processes (see bfs.Engine).
 	RootShard, RootShards int
+	// ScaleCompaction (memory backend): lower the order-list compaction thresholds (1024 entries, factor 4) to 2 and 1
+	// so that compactions happen inside the explored histories; the reference model is unchanged (a compaction must
+	// be unobservable).
+	ScaleCompaction bool
 	// Extra runs after qmodel accepted the transition; pre is the model before the operation.
 	Extra func(pre, post *qmodel.Model, op qmodel.Op, obs *qmodel.Obs) string
 	// Skip prunes successor states that are outside the property's quantifier.
@@ -221,6 +226,9 @@ func ConfigLabel(c qmodel.Config) string {
 
 func opName(op qmodel.Op) string { return op.Kind }
 
+// ScaleApplied reports whether the last ScaleCompaction request found the literals in the code under test.
+var ScaleApplied bool
+
 // Run executes the search.
 func Run(spec Spec) *Result {
 	if spec.Workers <= 0 {
@@ -232,6 +240,10 @@ func Run(spec Spec) *Result {
 	}
 	if spec.Backend == "memory" {
 		cfg.DeliveredCountsAgainstDepth = true
+	}
+	if spec.ScaleCompaction && spec.Backend == "memory" {
+		ScaleApplied = queue.VerifSetCompaction(2, 1)
+		defer queue.VerifSetCompaction(1024, 4)
 	}
 	scratch := runner.Scratch()
 	systems := make([]*qsys.Sys, spec.Workers)
@@ -390,6 +402,13 @@ func Report(r *runner.Run, spec Spec, res *Result) {
 	r.Add("transitions", res.Transitions)
 	r.Add("traces_validated_against_impl", res.Transitions)
 	label := fmt.Sprintf("%s/%s/%s", spec.Name, spec.Backend, res.ConfigLabel)
+	if spec.ScaleCompaction && spec.Backend == "memory" {
+		if ScaleApplied {
+			label += "/compaction-scaled"
+		} else {
+			label += "/compaction-scale-not-applicable"
+		}
+	}
 	if spec.RootShards > 1 {
 		label += fmt.Sprintf("/shard%d-of-%d", spec.RootShard, spec.RootShards)
 	}
